@@ -272,6 +272,9 @@ class State:
         return State(j['desc'], [[dec(r) for r in rows] for rows in j['rows']])
 
 
+SEQUENTIAL_SOURCE = not os.environ.get('VERIF_INDEPENDENT_SOURCE')
+
+
 class from_state(DataStreamProcessor):
     """Source that installs a descriptor verbatim and yields deep copies of the rows."""
 
@@ -289,9 +292,31 @@ class from_state(DataStreamProcessor):
                 self.on_pull(i, j)
             yield copy.deepcopy(r)
 
+    def _cursor(self):
+        """One shared sequential cursor over all resources, like a file being read (the library's own unstream /
+        checkpoint replay, concatenate and generator-of-generators sources behave this way): a consumer that skips a
+        resource without draining it makes the next resource start inside the skipped one."""
+        for i, rows in enumerate(self.state.rows):
+            for j, r in enumerate(rows):
+                if self.on_pull is not None:
+                    self.on_pull(i, j)
+                yield ('row', copy.deepcopy(r))
+            yield ('end', i)
+
+    def _seq_rows(self, cursor):
+        for kind, x in cursor:
+            if kind == 'end':
+                return
+            yield x
+
     def process_resources(self, resources):
         for _ in resources:   # no upstream expected
             pass
+        if SEQUENTIAL_SOURCE:
+            cursor = self._cursor()
+            for _ in self.state.rows:
+                yield self._seq_rows(cursor)
+            return
         for i, rows in enumerate(self.state.rows):
             yield self._rows(i, rows)
 
